@@ -28,11 +28,32 @@ func init() {
 				"while B is ready RemoveWallet with 4 wrong passphrases must be refused; in every state pending work is completed and then: Wallets() omits B, the raw database (every bucket, incl. keystore) contains neither B's wallet id nor any of its script hashes or encoded addresses, "+
 				"and wallet A's coins, balances and address grouping still equal the reference ledger (C01 oracle), also for transactions that paid or spent both wallets; after a re-import B converges to the reference again; distinct_nontrivial = distinct completed observations")
 			cov["bounds"] = map[string]interface{}{"depth": depth, "opts": opts}
+			// "a restart between any two removal steps": every commit inside the removal (phase 1,
+			// each phase-2 round, the final round) is a stop point; the wallet is restarted through
+			// the real start-up path and the worker must finish the removal by itself
+			ropts := map[string]interface{}{"remove": true, "templates": []string{"e", "ab", "a2b", "ch"}, "patterns": []string{"E"}, "max_reorg": 1, "max_queue": 1, "max_height": 5}
+			rdepth := 5
+			if c.Tier == "thorough" {
+				rdepth = 7
+			}
+			rcov, rviols, err := faultEnum(c, "crash", ropts, rdepth, 0, []int{1}, dl)
+			if err != nil {
+				return nil, nil, nil, err
+			}
+			cov["restart_between_steps_pass"] = rcov
+			if e, _ := rcov["exhaustive"].(bool); !e {
+				cov["exhaustive"] = false
+			}
+			if n, ok := rcov["evaluations"].(int); ok {
+				if t, ok := cov["traces_validated_against_impl"].(int); ok {
+					cov["traces_validated_against_impl"] = t + n
+				}
+			}
 			return cov, []string{
-				"the removal runs as one step (phase 1 and all phase-2 rounds of the real asyncRemove); crash/restart points are between the API call and the run, and after it",
-				"the 20 000-credit boundary of one removal round is not reached by these histories",
+				"in the history pass the removal runs as one step (phase 1 and all phase-2 rounds of the real asyncRemove); stop points INSIDE it are covered by the restart_between_steps pass (stop before commit k of every base history, restart through the real start-up path, worker resumes)",
+				"one removal round deletes 20 000 credits in production; the build overlay scales this literal to 2 (coverage.build_overlays) so that small wallets need several rounds",
 				"survivor's ability to build and sign transactions is covered by C02/C03 states, not re-checked here",
-			}, out.Violations, nil
+			}, append(out.Violations, rviols...), nil
 		},
 		Replay: func(c *runCtx, file string) error {
 			return replayBFS(c, "c01", file, func(t string) interface{} {
